@@ -456,6 +456,9 @@ class CallMixin:
         if d == "builtins.bool":
             t = self.truth(args[0], frame, node, fork=False)
             return BoolV(t) if t is not None else BoolV(None, ("truth", key_str(val_key(args[0]))))
+        r = self.io_call(d, self_val, args, kwargs, frame, node)
+        if r is not None:
+            return r
         if d in ("builtins.open",) or d.startswith(("json.", "joblib.", "pandas.", "pathlib.")):
             self.ctx.event("io", d, frame.loc(node))
             return Opaque(d)
